@@ -1298,6 +1298,11 @@ package leveldb
 // recovery's own new journal the file that the end of recovery removes). The journals are replayed in ascending
 // number order (sortFds: trusted, and the filter loop keeps the order: not proved here), so retiring the number of
 // the last one retires them all.
+//@ func (*session).allocFileNum
+//@   props C04 C19 C06
+//@   safety off
+//@   ensures [C04,C06,C19:a-number-never-handed-out-before] result == old(s.stNextFileNum) && s.stNextFileNum == old(s.stNextFileNum) + 1
+
 //@ func (*session).markFileNum
 //@   props C04 C19 C01
 //@   safety off
@@ -1726,10 +1731,23 @@ package leveldb
 // dropped in strict mode and otherwise rebuilt (renamed over the original) before it is registered, a registered
 // table goes to level 0 and raises the recovered sequence number to at least its own.
 //@ ghost var gLow uint64
+// (C19, with C04 and C06 in mind: while Recover runs, the manifest that is current - if there is one - still describes the files it found:
+// a rebuilt table gets a number of its own and does not replace the damaged original, whose recorded size and bounds
+// it does not have (the number is one the session hands out at that moment, so no file bears it). An interrupted Recover followed by a plain Open otherwise installs a version whose record of that
+// table is stale, and the whole table - not only its damaged block - becomes unreadable; F35.)
+//@ ghost var gRebuiltNum int64
+//@ ghost var gRebuiltNumFresh bool
 //@ func recoverTable$3
 //@   props C19
 //@   abstract keys
 //@   safety off
+//@   at entry
+//@     ghost gRebuiltNumFresh = false
+//@   at call (*session).allocFileNum#1
+//@     ghost gRebuiltNum = result
+//@     ghost gRebuiltNumFresh = true
+//@   at before call storage.Storage.Rename#1
+//@     assert [C19:a-rebuilt-table-does-not-replace-the-damaged-original] gRebuiltNumFresh && arg1.Num == gRebuiltNum && arg1.Type == storage.TypeTable
 //@   at before stmt tgoodKey++
 //@     ghost gLow = tSeq
 //@   loop 1
